@@ -469,8 +469,66 @@ def _classify(an: Analysis, module, name, value, cls):
             return 'bad', 'module level instance of %s carries state %s' % (short(qn), state)
         return 'bad', 'module/class level object created by %s(...)' % text
     if isinstance(value, (ast.List, ast.Set, ast.ListComp, ast.DictComp, ast.SetComp)):
+        if cls is None and _import_time_registry(an, module, name):
+            return 'ok', 'a registry filled while the module is imported (by decorators ' \
+                         'applied at class creation): the same for every simulation'
         return 'bad', 'module/class level mutable container'
     return 'ok', 'other expression'
+
+
+def _import_time_registry(an: Analysis, module, name: str) -> bool:
+    """a module level container that only decorators touch: every mention of the name is
+    inside module level functions of its own module, and each of those functions is
+    mentioned only as a decorator of a definition at module or class level -- they run
+    while the module is imported, never during a simulation"""
+    for other in an.p.modules.values():
+        if other is module:
+            continue
+        binding = other.bindings.get(name)
+        if binding and binding[0] == 'import' and binding[1] == module.name:
+            return False  # handed out to another module
+    holders = set()
+    for stmt in module.tree.body:
+        mentions = [n for n in ast.walk(stmt) if isinstance(n, ast.Name) and n.id == name]
+        if not mentions:
+            continue
+        if isinstance(stmt, ast.FunctionDef):
+            holders.add(stmt.name)
+        elif isinstance(stmt, (ast.Assign, ast.AnnAssign)) and all(
+                isinstance(n.ctx, ast.Store) for n in mentions):
+            continue  # the definition itself
+        else:
+            return False
+    if not holders:
+        return False
+    decorators = set()
+    for node in ast.walk(module.tree):
+        if isinstance(node, (ast.FunctionDef, ast.AsyncFunctionDef, ast.ClassDef)):
+            for deco in node.decorator_list:
+                decorators.update(id(n) for n in ast.walk(deco))
+    owners = {}
+    for top in module.tree.body:
+        for node in ast.walk(top):
+            owners[id(node)] = top
+    for node in ast.walk(module.tree):
+        if isinstance(node, ast.Name) and node.id in holders and id(node) not in decorators:
+            return False  # called or passed around somewhere else
+    for other in an.p.modules.values():
+        if other is not module and any(
+                b[0] == 'import' and b[1] == module.name and b[2] in holders
+                for b in other.bindings.values() if len(b) > 2):
+            return False
+    # a decorator inside a function body would run during a simulation
+    for node in ast.walk(module.tree):
+        if isinstance(node, (ast.FunctionDef, ast.AsyncFunctionDef)):
+            for inner in ast.walk(node):
+                if inner is not node and isinstance(
+                        inner, (ast.FunctionDef, ast.AsyncFunctionDef, ast.ClassDef)):
+                    for deco in inner.decorator_list:
+                        if any(isinstance(n, ast.Name) and n.id in holders
+                               for n in ast.walk(deco)):
+                            return False
+    return True
 
 
 def _slot_names(cls) -> list:
